@@ -147,6 +147,16 @@ def answer (tables : Array (Table × Nat)) (m : Assoc Nat) (d : Dict Nat) (op : 
       let sh := fun (r : List Key × Bool) => s!"{showKeys r.1}/{showBool r.2}"
       s!"{sh (sortedOrdsSpec m os)}~{sh (d.sortedOrdsToTerm os)}"
     | none => "bad-op"
+  | ["tbo", lo, hi] =>
+    match parseBound lo, parseBound hi with
+    | some lo, some hi =>
+      let sh := fun (b : OrdBound) => match b with
+        | .unbounded => "u"
+        | .incl o => if o = U64_MAX then "imax" else s!"i{o}"
+        | .excl o => if o = U64_MAX then "emax" else s!"e{o}"
+      let r := d.termBoundsToOrd lo hi
+      s!"-~{sh r.1},{sh r.2}"
+    | _, _ => "bad-op"
   | ["blk", k] =>
     match bytesOfHex k with
     | some k => match (d.locateKey k).bind d.blockAt with
